@@ -117,11 +117,21 @@ def make_watch_cases(tier, seed):
     cases = []
     for k in range(40 if quick else 400):
         exts = rng.choice([None, ["txt"], ["csv", "o"], [".txt"], ["tar.gz"]])
+        # sometimes the same path is listed by two input entries with different extensions
+        exts2 = rng.choice([None, None, ["gz"], ["o"], ["TXT"]]) if exts is not None else None
+        sext = ("." + exts[0].lstrip(".")) if exts else ".txt"
         tree = [{"path": {"segs": ["src", "sub"]}, "type": "dir"}, {"path": {"segs": ["src", ".zinoma"]}, "type": "dir"},
-                {"path": {"segs": ["src", "sentinel" + (("." + exts[0].lstrip(".")) if exts else ".txt")]}, "type": "file", "content": "s"}]
-        sent = "src/sentinel" + (("." + exts[0].lstrip(".")) if exts else ".txt")
-        y = "\n".join(["targets:", "  t:", "    build: 'true'", "    input:", "      - paths: [src]"] +
-                      (["        extensions: [%s]" % ", ".join("'%s'" % e for e in exts)] if exts is not None else [])) + "\n"
+                {"path": {"segs": ["staging"]}, "type": "dir"},
+                {"path": {"segs": ["src", "sentinel" + sext]}, "type": "file", "content": "s"}]
+        sent = "src/sentinel" + sext
+        ylines = ["targets:", "  t:", "    build: 'true'", "    input:", "      - paths: [src]"]
+        if exts is not None:
+            ylines.append("        extensions: [%s]" % ", ".join("'%s'" % e for e in exts))
+        resources = [{"paths": [["src"]], "exts": exts or []}]
+        if exts2 is not None:
+            ylines += ["      - paths: [src/sub, src]", "        extensions: [%s]" % ", ".join("'%s'" % e for e in exts2)]
+            resources.append({"paths": [["src", "sub"], ["src"]], "exts": exts2})
+        y = "\n".join(ylines) + "\n"
         ops, mops = [], []
         created = []
         for _ in range(rng.randint(4, 10)):
@@ -129,7 +139,15 @@ def make_watch_cases(tier, seed):
             n = rng.choice(FILE_NAMES)
             nb = name_bytes(n)
             p = d + [n]
-            kindop = rng.choice(["create", "create", "modify", "delete", "rename"])
+            kindop = rng.choice(["create", "create", "modify", "delete", "rename", "mvdir"])
+            if kindop == "mvdir":
+                # a populated directory moved into the watched tree: one event, on the directory
+                k2 = len(ops)
+                ops.append({"op": "create", "path": {"segs": ["staging", "pkg%d" % k2, "inside.txt"]}})
+                mops.append({"kind": "create", "p": ["staging", "pkg%d" % k2, "inside.txt"], "to": [], "check": False})
+                ops.append({"op": "rename", "path": {"segs": ["staging", "pkg%d" % k2]}, "to": {"segs": ["src", "pkg%d" % k2]}})
+                mops.append({"kind": "mvdir", "p": ["staging", "pkg%d" % k2], "to": ["src", "pkg%d" % k2], "check": exts is None})
+                continue
             if kindop in ("delete", "rename", "modify") and not created:
                 kindop = "create"
             if kindop == "create":
@@ -154,7 +172,7 @@ def make_watch_cases(tier, seed):
                 mops.append({"kind": "rename", "p": d2 + [lossy(nb2)], "to": d3 + [lossy(nb3)], "check": True})
                 if (d3, nb3) not in created:
                     created.append((d3, nb3))
-        m = {"exts": exts or [], "ops": mops, "also": []}
+        m = {"resources": resources, "ops": mops, "also": []}
         cases.append({"id": "w%d" % k, "kindcase": "watch", "m": m,
                       "job": {"id": "w%d" % k, "tree": tree, "yaml": y, "requested": ["t"], "sentinel": sent, "ops": ops, "settle_ms": 30}})
     return cases
